@@ -62,6 +62,8 @@ def planted_shortcut(rng, dims, n):
 
 def gen_instance(rng, entry, kind, dims=None):
     """returns Prob or None"""
+    if kind == "feasible" and dims is None and entry in ("lp", "conelp") and rng.random() < (0.25 if entry == "lp" else 0.08):
+        return gp.planted_sparse_lp(rng)        # genuinely sparse pattern, n up to 12
     for _ in range(30):
         d = dims or dims_for_entry(rng, entry)
         n = rng.randint(1, 6)
@@ -234,7 +236,9 @@ def run_conelp_family(ctx, judge_status, mix, with_backends=True, op_fraction=0.
             kkt, kkt_label, start, oclass = None, "backend", "none", "default"
             opts = {"show_progress": False, "glpk": {"msg_lev": "GLP_MSG_OFF"}, "msg_lev": "GLP_MSG_OFF",
                     "dsdp": {"DSDP_Monitor": 0}}
-        if kkt_label == "ldl" and rng.random() < 0.15 and not backend:
+        # kktreg (undocumented regularisation, ldl only) is combined with the default tolerances only: a
+        # tolerance below the regularisation level asks for more than the regularised system can deliver
+        if kkt_label == "ldl" and rng.random() < 0.15 and not backend and oclass in ("default", "refinement", "maxiters"):
             opts = dict(opts); opts["kktreg"] = rng.choice([1e-10, 1e-9]); oclass += "+kktreg"
         via_kwarg = rng.random() < 0.5
         c.desc.update({"entry": entry, "kind": kind, "dims": d.key(), "n": pr.n, "p": pr.p, "kkt": kkt_label,
@@ -276,7 +280,16 @@ def run_conelp_family(ctx, judge_status, mix, with_backends=True, op_fraction=0.
             return
         nsol = sr.normalise(entry, sol, d)
         J = certs.Judge(c, ctx, entry if not backend else entry + "+" + backend)
+        nfail0 = len(c.failed)
         certs.judge_cone_result(c, ctx, pr, nsol, opts, J.p, external=backend)
+        if backend == "dsdp" and st == "optimal":
+            # one mechanism key: DSDP_PDFEASIBLE is relayed as 'optimal' whether or not DSDP converged
+            promised = [f for f in c.failed[nfail0:] if ":optimal-" in f["key"]]
+            if promised:
+                c.failed[nfail0:] = [f for f in c.failed[nfail0:] if ":optimal-" not in f["key"]]
+                c.fail("sdp+dsdp:optimal-status-but-not-converged-to-1e-3",
+                       "sdp(solver='dsdp') returned 'optimal' for a point that misses the optimality conditions by more than 1e-3: " +
+                       "; ".join(f["msg"][:120] for f in promised[:3]))
         if entry in ("socp", "sdp") and not backend:
             sr.wrapper_blocks_exact(J, entry, sol, inner, d)
             ctx.count("wrapper-block-checks")
@@ -310,6 +323,8 @@ def run_conelp_family(ctx, judge_status, mix, with_backends=True, op_fraction=0.
 # ---------------------------------------------------------------------------
 
 def gen_qp_instance(rng, entry, noineq=False):
+    if not noineq and rng.random() < (0.25 if entry == "qp" else 0.08):
+        return gp.planted_sparse_lp(rng, qp=True)
     for _ in range(40):
         if noineq:
             d = Dims(0)
@@ -392,7 +407,7 @@ def run_coneqp_family(ctx):
         else:
             kkt, kl = sr.NumpyKKT(pr), "callable"
             operators = entry == "coneqp" and rng.random() < 0.5
-        if kl == "ldl" and rng.random() < 0.15:
+        if kl == "ldl" and rng.random() < 0.15 and oclass in ("default", "refinement", "maxiters"):
             opts = dict(opts); opts["kktreg"] = rng.choice([1e-10, 1e-9]); oclass += "+kktreg"
         # initvals: every subset of {x, s, y, z}
         sub = [k for k in "xsyz" if rng.random() < 0.5] if rng.random() < 0.45 else []
@@ -616,7 +631,10 @@ def run_classification(ctx, second_path=True):
                 rg = [g for g in certs.relgap_candidates(R["pcost"], R["dcost"], R["gap"]) if g is not None]
                 gapok = R["gap"] <= 1e-5 or (rg and min(rg) <= 1e-5)
                 ctx.count("feasible-unknown")
-                J.req(lvl <= 1e-5 and gapok, "feasible-unknown-not-at-1e-5",
+                # mechanism split: the iterates are feasible to 1e-4 but the gap oscillates until maxiters
+                # (Mehrotra steps cycling between a few points) vs. any other failure
+                cyc = it == 100 and lvl <= 1e-4 and not gapok
+                J.req(lvl <= 1e-5 and gapok, "unknown-at-maxiters-feasible-iterates-gap-cycling" if cyc else "feasible-unknown-not-at-1e-5",
                       "status 'unknown' on a strictly feasible planted instance with pres %.3g dres %.3g gap %.3g after %r iterations"
                       % (R["pres"], R["dres"], R["gap"], it), sv=pr.pl.get("sv"))
             # weak-duality bracket from the planted points: d_pl <= p* <= p_pl.  A point with
